@@ -51,8 +51,13 @@ class ExternalModels(object):
             fn = getattr(p, hook, None)
             if fn is not None:
                 r = fn(*a)
-                if r is not default and r is not NotImplemented and r is not None:
-                    return r
+                if r is NotImplemented:
+                    continue
+                if default is None and r is None:
+                    continue
+                if default is False and r is False:
+                    continue
+                return r
         return default
 
     # ---- hooks used by the interpreter ----
@@ -306,7 +311,8 @@ class ScalarPlugin(object):
 def default_externals():
     X = ExternalModels()
     X.plugins.append(ScalarPlugin())
-    from . import symlist, symmap, mpmodel
+    from . import symlist, symmap, mpmodel, ndarray
+    ndarray.install(X)
     symlist.install(X)
     symmap.install(X)
     mpmodel.install(X)
